@@ -6,7 +6,7 @@ import checklib as C
 import instgen
 from props import common
 
-MODULE = "Rspirv.Props.C03Kind"
+MODULE = "Rspirv.Props.C03KindOp"
 PS = "Rspirv.Props.ParserSpec."
 THEOREMS = [PS + n for n in ("word_cons", "view_bytes", "string_view", "decodeElem_ref", "decodeElems_ref", "parseOperand_ref",
                              "parseLiteral_ref", "parseMany_ref", "parseNested_ref", "parseSpecConstantOp_ref", "parseOne_ref",
@@ -17,7 +17,9 @@ THEOREMS = [PS + n for n in ("word_cons", "view_bytes", "string_view", "decodeEl
            ["Rspirv.Props.C03." + n for n in ("inst_shrinks", "C03_loop", "header_sview", "C03_accept", "C03_reject",
                                               "C03_header_short", "C03_header_magic", "C03")] + \
            ["Rspirv.Props.C03Kind." + n for n in ("parseInst_wc0", "parseInst_unknown", "parseInst_surplus", "C03_kind_wc0",
-                                                  "C03_kind_unknown")]
+                                                  "C03_kind_unknown")] + \
+           ["Rspirv.Props.C03KindOp." + n for n in ("parseOne_op", "loop_op", "parseInst_opLevel", "C03_kind_operand",
+                                                    "C03_kind_cases")]
 NEEDS = ("header", "core", "decode", "operand_enum", "asm_arms", "parse_operand", "operands")
 BOUNDARY = [0, 1, 2, 0xffff, 0x10000, 0x10001, 0x7fffffff, 0x80000000, 0xffffffff, 0x00030000, 0x0001ffff]
 
@@ -120,7 +122,7 @@ def run(ctx):
         T, fails = C.translate_all(ctx)
         hok, herr = C.build_harness(ctx, bins=("impl",))
         have = C.need(ctx, *NEEDS)
-        failing = C.prove(ctx, MODULE, THEOREMS, extra_targets=["driver"], files=["Rspirv/Props/C03.lean", "Rspirv/Props/C03Kind.lean", "Rspirv/Props/ParserSpec.lean", "Rspirv/Props/ParserErr.lean", "Rspirv/Model/Spec.lean", "Rspirv/Model/Parser.lean", "Rspirv/Model/Decoder.lean"]) if have else []
+        failing = C.prove(ctx, MODULE, THEOREMS, extra_targets=["driver"], files=["Rspirv/Props/C03.lean", "Rspirv/Props/C03Kind.lean", "Rspirv/Props/C03KindOp.lean", "Rspirv/Props/ParserSpec.lean", "Rspirv/Props/ParserErr.lean", "Rspirv/Model/Spec.lean", "Rspirv/Model/Parser.lean", "Rspirv/Model/Decoder.lean"]) if have else []
     for n, e in failing:
         ctx.issue(f"theorem:{n}", f"Lean obligation no longer checks: {e['msg'][:300]}", witness=e)
     if not hok:
